@@ -49,6 +49,7 @@ func cmdRandom(args []string) {
 	lockups := fs.Bool("lockups", false, "contract-held coinbases ('cl' lockup records)")
 	trimspend := fs.Int("trimspend", 0, "attempts to spend a small output in exactly the block that trims it")
 	chained := fs.Int("chained", 0, "every N-th step: a peer-style block with a same-block chained Qi spend, then forks around it")
+	primesib := fs.Int("primesiblings", 0, "every N-th step: conversions, a region block, then two sibling prime blocks confirming the same rollups")
 	fresh := fs.Int("fresh", 0, "compare with a fresh node that only saw the canonical chain every N steps (and at the end)")
 	fs.Parse(args)
 
@@ -203,6 +204,34 @@ func cmdRandom(args []string) {
 				doChained()
 				continue
 			}
+			if *primesib > 0 && i%*primesib == *primesib-2 {
+				// conversions emitted, rolled up by a region block, then confirmed by TWO prime blocks on the same parent: the second pass
+				// over the same (cached) rollups must reprice from the original amounts again
+				r.OfferConversions(3)
+				z := mine(r.Blocks2Head(), 0)
+				refused := func(which string, err error) {
+					// "no nonce found" = the requested order could not be sealed within the search budget: not a verdict
+					if err != nil && !strings.Contains(err.Error(), "no nonce found") {
+						r.Problems = append(r.Problems, chain.Problem{Kind: "prime-sibling-scenario-block-refused", Info: map[string]interface{}{"which": which, "err": err.Error(), "step": i}})
+					}
+				}
+				rg, err := r.MineOn(z, mininet.Region)
+				if err != nil {
+					refused("region block rolling up the conversions", err)
+					continue
+				}
+				if _, err := r.MineOn(rg, mininet.Prime); err != nil {
+					refused("first prime block", err)
+					continue
+				}
+				b, err := r.MineOn(rg, mininet.Prime)
+				if err != nil {
+					refused("second prime block on the same parent", err)
+					continue
+				}
+				mine(b, 0) // the zone executes what the second sibling delivered
+				continue
+			}
 			switch x := r.R.Intn(20); {
 			case x < 12:
 				mine(r.Blocks2Head(), r.R.Intn(5))
@@ -268,7 +297,7 @@ func cmdRandom(args []string) {
 	bw.Flush()
 	w.Close()
 	sum := map[string]interface{}{"events": len(r.Events), "blocks": len(r.Blocks) - 1, "entries": r.NumEntries(), "problems": r.Problems, "backend": *backend, "trimspend_realised": realised, "lockup_records": len(r.Prev.Lockups), "adversarial_qi_txs_offered": r.Adversarial, "failing_evm_txs_offered": r.FailingTxs, "lockup_entries_seen": r.LockupEntries(),
-		"reexecutions": r.Reexecs, "follower_checks": r.FollowerChecks, "fresh_replays": r.FreshReplays, "index_checks": r.IndexChecks, "chained_blocks": r.Chained, "slot_calls": r.SlotCalls, "slot_state": slotState, "dom_canon_checks": r.DomCanonChecks, "double_spend_blocks_refused": r.DoubleSpendRefused}
+		"reexecutions": r.Reexecs, "follower_checks": r.FollowerChecks, "fresh_replays": r.FreshReplays, "index_checks": r.IndexChecks, "chained_blocks": r.Chained, "slot_calls": r.SlotCalls, "slot_state": slotState, "dom_canon_checks": r.DomCanonChecks, "sibling_conversion_checks": r.SiblingConvChecks, "double_spend_blocks_refused": r.DoubleSpendRefused}
 	b, _ := json.Marshal(sum)
 	fmt.Println(string(b))
 }
